@@ -28,6 +28,8 @@ def run(ctx):
     B.b5_bookkeeping(ctx)
     B.b6_base_cases(ctx)
     B.b7_equivalence_steps(ctx)
+    B.b20_each_side_walks_its_own_chain(ctx)
+    ctx.floor("B20", 2)
     B.b19_equiv_is_guarded_by_the_kind(ctx)
     ctx.floor("B19", 4)
     B.b7b_min_object_of_the_rule_class(ctx)
